@@ -555,6 +555,7 @@ func c05(p *core.Program, r *core.Report) {
 	}
 
 	spellingRule(p, r, "spelling-variants", g)
+	ordinateFromStrconvRule(p, r, "ordinate-from-strconv")
 
 	// ---- EMPTY members / offsets in the encoder
 	only := apiClosure(p, wktRel, "Encoder")
